@@ -338,6 +338,92 @@ type vHist struct {
 	acked      map[Digest]bool           // a non-empty store of d was acknowledged and no later Put/chunk of d failed
 }
 
+// vSnap lists everything below the cache root: relative path -> "d" (directory) or "f:"+content.
+func vSnap(root string) map[string]string {
+	m := map[string]string{}
+	filepath.WalkDir(root, func(p string, de fs.DirEntry, err error) error {
+		if err != nil || p == root {
+			return nil
+		}
+		rel, _ := filepath.Rel(root, p)
+		if de.IsDir() {
+			m[rel] = "d"
+		} else if b, err := os.ReadFile(p); err == nil {
+			m[rel] = "f:" + string(b)
+		}
+		return nil
+	})
+	return m
+}
+
+// vBlobOfPath: "blobs/sha256-<64 hex>" -> digest
+func vBlobOfPath(rel string) (Digest, bool) {
+	const pre = "blobs/sha256-"
+	if !strings.HasPrefix(rel, pre) || len(rel) != len(pre)+64 {
+		return Digest{}, false
+	}
+	b, err := hex.DecodeString(rel[len(pre):])
+	if err != nil {
+		return Digest{}, false
+	}
+	var d Digest
+	copy(d.sum[:], b)
+	return d, true
+}
+
+// confine is the disk-level frame condition of every operation, evaluated on the real directory tree:
+// blob operations change nothing but the one blob file they name; name operations (Link / Unlink) change
+// nothing outside manifests/ and create files only at manifests/<host>/<ns>/<model>/<tag>; Resolve changes
+// nothing but the blob named by the digest it returns.
+func (h *vHist) confine(step int, o vOp, dg *Digest, before, after map[string]string) {
+	allowedBlob := ""
+	switch o.kind {
+	case "put", "chunk":
+		allowedBlob = "blobs/sha256-" + vHexD(o.d)
+	case "import", "resolve":
+		if dg != nil {
+			allowedBlob = "blobs/sha256-" + vHexD(*dg)
+		}
+	}
+	paths := map[string]string{}
+	for p, v := range before {
+		if w, ok := after[p]; !ok {
+			paths[p] = "removed"
+		} else if w != v {
+			paths[p] = "modified"
+		}
+	}
+	for p := range after {
+		if _, ok := before[p]; !ok {
+			paths[p] = "created"
+		}
+	}
+	sorted := make([]string, 0, len(paths))
+	for p := range paths {
+		sorted = append(sorted, p)
+	}
+	sort.Strings(sorted)
+	for _, p := range sorted {
+		if d, ok := vBlobOfPath(p); ok {
+			h.lastWriter[d] = o.kind
+		}
+		ok := false
+		switch o.kind {
+		case "link", "unlink":
+			rest := strings.TrimPrefix(p, "manifests/")
+			depth := strings.Count(rest, "/") + 1
+			isDir := after[p] == "d" || before[p] == "d"
+			ok = rest != p && ((isDir && depth <= 3) || (!isDir && depth == 4))
+		default:
+			ok = p == allowedBlob
+		}
+		h.out.Count("l2_confine_changed_paths")
+		if !ok {
+			h.out.L2("op-touches-foreign-file", h.caseLine, fmt.Sprintf("op=%s change=%s path=%s step=%d name=%q", o.kind, paths[p], p, step, o.name))
+		}
+	}
+}
+
 // checkStored is put_ok_retrievable evaluated on the real code: right after an acknowledged store of d under
 // `size` (> 0) the blob is retrievable: Get ok, Size = size, real sha256 of the file = d.
 func (h *vHist) checkStored(step int, via string, d Digest, size int64) {
@@ -391,6 +477,27 @@ func (h *vHist) checkAllPresent(step int, op vOp) {
 	}
 }
 
+// checkAcked: an acknowledged non-empty store of d stays retrievable until a Put / Chunker.Put of d itself is
+// refused or truncates it: no other operation (in particular no name operation) may remove or change it.
+func (h *vHist) checkAcked(step int, op vOp) {
+	ds := make([]Digest, 0, len(h.acked))
+	for d, a := range h.acked {
+		if a {
+			ds = append(ds, d)
+		}
+	}
+	sort.Slice(ds, func(i, j int) bool { return ds[i].Compare(ds[j]) < 0 })
+	for _, d := range ds {
+		h.out.Count("l2_acked_checked")
+		_, err := h.c.Get(d)
+		b, _ := h.blobBytes(d)
+		if err != nil || vDigestOf(b) != d {
+			h.out.L2("acked-blob-lost", h.caseLine, fmt.Sprintf("last-writer=%s step=%d op=%s digest=%s get=%v file=%s", h.lastWriter[d], step, op.kind, d.Short(), err, zzverif.Hex(b)))
+			h.acked[d] = false // report once
+		}
+	}
+}
+
 func (h *vHist) noteStored(d Digest, size int64) {
 	if h.stored[d] == nil {
 		h.stored[d] = map[int64]bool{}
@@ -428,7 +535,9 @@ func (h *vHist) run(ops []vOp) (results []string, keys map[Digest]bool) {
 			}
 		}
 
+		snapBefore := vSnap(h.dir)
 		res, dg := vExec(h.c, o)
+		snapAfter := vSnap(h.dir)
 		results = append(results, res)
 		h.out.Count("op_" + o.kind)
 		h.out.Count("res_" + o.kind + "_" + vResClass(res))
@@ -439,16 +548,8 @@ func (h *vHist) run(ops []vOp) (results []string, keys map[Digest]bool) {
 			keys[*dg] = true
 		}
 
-		// who changed which blob file
-		if target != nil {
-			after, afterOK := h.blobBytes(*target)
-			if afterOK != beforeOK || !bytes.Equal(after, before) {
-				h.lastWriter[*target] = o.kind
-			}
-		}
-		if dg != nil && (o.kind == "import" || o.kind == "resolve") && strings.Contains(o.name, "@") == false {
-			h.lastWriterIfNew(*dg, o.kind)
-		}
+		// who changed which file (sets lastWriter), and the frame condition of the operation
+		h.confine(i, o, dg, snapBefore, snapAfter)
 
 		switch o.kind {
 		case "put":
@@ -459,7 +560,9 @@ func (h *vHist) run(ops []vOp) (results []string, keys map[Digest]bool) {
 				if h.lastWriter[o.d] != "chunk" {
 					h.checkStored(i, "put", o.d, o.size)
 				}
-				h.acked[o.d] = o.size > 0 // Put(d, _, 0) = ok truncates a longer file by design (TestPutZero)
+				// Put(d, _, 0) = ok truncates a longer file by design (TestPutZero); a Put answered from the size
+				// shortcut over a holey chunked file acknowledges nothing new (F10-cache)
+				h.acked[o.d] = o.size > 0 && h.lastWriter[o.d] != "chunk"
 			} else {
 				h.acked[o.d] = false // a refused Put legitimately truncates the file
 			}
@@ -494,7 +597,9 @@ func (h *vHist) run(ops []vOp) (results []string, keys map[Digest]bool) {
 				}
 				h.linked[h.linkKey(o.name)], h.linkedWhy[h.linkKey(o.name)] = o.d, why
 				// (C) a name is linked only to a manifest blob that exists (by the cache's own Get)
-				if getBeforeErr != nil {
+				// (the empty blob is stored as an empty file, which Get never reports present — by design; linking
+				// the empty manifest is what upstream's TestPushZero does)
+				if getBeforeErr != nil && !(o.d == vDigestOf(nil) && beforeOK && len(before) == 0) {
 					detail := "blob-file-missing"
 					if beforeOK && len(before) == 0 {
 						detail = "blob-file-zero-length"
@@ -548,6 +653,7 @@ func (h *vHist) run(ops []vOp) (results []string, keys map[Digest]bool) {
 			}
 		}
 		h.checkAllPresent(i, o)
+		h.checkAcked(i, o)
 	}
 	return results, keys
 }
@@ -562,12 +668,6 @@ func vResClass(res string) string {
 		return res[:strings.IndexByte(res, ':')]
 	}
 	return res
-}
-
-func (h *vHist) lastWriterIfNew(d Digest, kind string) {
-	if _, ok := h.lastWriter[d]; !ok {
-		h.lastWriter[d] = kind
-	}
 }
 
 // dump renders the final disk like the oracle's `hist` command.
@@ -611,6 +711,19 @@ func vGenHist(r *zzverif.Rng) []vOp {
 	}
 	bogus := Digest{}
 	copy(bogus.sum[:], r.Bytes(32))
+	// hostile names: parts that begin with '.', "." and ".." parts, and names whose would-be manifest path
+	// lands on a blob file of this history (manifests/../blobs/./sha256-<hex>)
+	hostile := []string{"../n/m:t", "h/../m:t", "h/n/..:t", "h/n/m:..", "./n/m:t", "h/n/.:t", ".../n/m:t", "h/n/.m:t", "h/n/m:.t",
+		"..:80/n/m:t", "-h/n/m:t", "h/-n/m:t", "../blobs/x:y", "../../x/y:z"}
+	for _, ci := range []int{2, 3, 4} {
+		hostile = append(hostile, "../blobs/.:sha256-"+vHexD(vDigestOf(contents[ci])))
+	}
+	pickName := func() string {
+		if r.Chance(1, 6) {
+			return zzverif.Pick(r, hostile)
+		}
+		return zzverif.Pick(r, vNames)
+	}
 	var imported []Digest
 	nops := r.Range(4, 26)
 	var ops []vOp
@@ -646,6 +759,13 @@ func vGenHist(r *zzverif.Rng) []vOp {
 			vOp{kind: "resolve", name: name})
 	}
 	switch r.Intn(10) {
+	case 2: // two stored blobs of one size; Link / Resolve / Unlink through a name aimed at the first one's file
+		a, b := contents[2], contents[3]
+		name := "../blobs/.:sha256-" + vHexD(vDigestOf(a))
+		ops = append(ops, vOp{kind: "put", d: vDigestOf(a), size: 7, s: vMkScript(r, a, "exact", false)},
+			vOp{kind: "put", d: vDigestOf(b), size: 7, s: vMkScript(r, b, "exact", false)},
+			vOp{kind: "link", name: name, d: vDigestOf(b)}, vOp{kind: "get", d: vDigestOf(a)},
+			vOp{kind: "resolve", name: name}, vOp{kind: "unlink", name: name}, vOp{kind: "get", d: vDigestOf(a)})
 	case 0, 1: // a failed / partial earlier store of d, then Import of the true bytes, then Get / Link / Resolve
 		c := contents[r.Range(1, len(contents)-1)]
 		d := vDigestOf(c)
@@ -684,11 +804,11 @@ func vGenHist(r *zzverif.Rng) []vOp {
 			ops = append(ops, vOp{kind: "get", d: d})
 		case x < 63:
 			d, _ := pickD()
-			ops = append(ops, vOp{kind: "link", name: zzverif.Pick(r, vNames), d: d})
+			ops = append(ops, vOp{kind: "link", name: pickName(), d: d})
 		case x < 70:
-			ops = append(ops, vOp{kind: "unlink", name: zzverif.Pick(r, vNames)})
+			ops = append(ops, vOp{kind: "unlink", name: pickName()})
 		case x < 88:
-			name := zzverif.Pick(r, vNames)
+			name := pickName()
 			if r.Chance(1, 10) {
 				d, _ := pickD()
 				name = zzverif.Pick(r, []string{"", "h/n/m:t", "x"}) + "@" + zzverif.Pick(r, []string{"sha256:", "sha256-", "sha255:", "sha256"}) + vHexD(d)[:zzverif.Pick(r, []int{64, 64, 64, 63})]
@@ -739,10 +859,9 @@ func vHistLine(ops []vOp) string {
 	for i, o := range ops {
 		parts[i] = o.String()
 	}
-	variant := 0 // which Link the model runs: 0 = pinned code, 1 = proposed_fixes/C08-F8.patch (detected by the check)
-	if os.Getenv("VERIF_C08_FIXED") == "1" {
-		variant = 1
-	}
+	// which Link the model runs: 0 = pinned in-place, 1 = temp+rename (fix 834f6be9a), 2 = 1 + zero-length
+	// refusal (proposed_fixes/C08-F8-zero.patch); detected from the source by the check
+	variant := zzverif.EnvInt("VERIF_C08_FIXED", 0)
 	return fmt.Sprintf("hist %d %d %s", variant, len(ops), strings.Join(parts, " "))
 }
 
